@@ -117,7 +117,7 @@ def run(tier, seed):
                                     theorem=pg['theorems'], problems=pg['problems']), False))
     ncases = 50 if tier == 'quick' else 600
     cases = [seed * 100000 + 10000 + i for i in range(ncases)]
-    for r in core.run_cases(run_case, cases):
+    for r in core.run_cases(run_case, core.with_corpus(PID, cases)):
         rep.merge(r)
     rep.obligation('correspondence: Whip.Whip.whip (extracted, fed the completion orders the controlled pool used) = the .npy written by '
                    'the whip entry point', not any(v[0].get('kind') == 'model-vs-impl' for v in rep.violations))
